@@ -64,13 +64,17 @@ def redirect_types(ctx, toks):
 UNITS['RangeDimensionHDF5r_redirectGroup'] = dict(file='backend/hdf5/DimensionHDF5.cpp', locator=r'H5Group\s+RangeDimensionHDF5::redirectGroup\s*\(', cls='RangeDimensionHDF5r', cls_decl='RangeDimensionHDF5',
     cls_file='backend/hdf5/DimensionHDF5.hpp', classes=['RangeDimensionHDF5r', 'H5GroupR', 'nstring'], pre_rules=[redirect_types], subst={'H5Group': 'H5GroupR'}, inherited_members=['group'], member_types={'group': 'H5GroupR'},
     ret_default='(H5GroupR){0}')
+for _fn, _meth in (('RangeDimensionHDF5r_label_set', 'label'), ('RangeDimensionHDF5r_unit_set', 'unit')):
+    UNITS[_fn] = dict(file='backend/hdf5/DimensionHDF5.cpp', locator=r'void\s+RangeDimensionHDF5::%s\s*\((?=\s*const\s+string\s*&)' % _meth, cls='RangeDimensionHDF5r', cls_decl='RangeDimensionHDF5',
+        cls_file='backend/hdf5/DimensionHDF5.hpp', classes=['RangeDimensionHDF5r', 'H5GroupR', 'nstring'], pre_rules=[redirect_types], member_calls={'redirectGroup': 'RangeDimensionHDF5r_redirectGroup_rec'})
+RDX = 'int gh_rd_opened, gh_rd_names_asked, gh_rd_redirects, gh_rd_setattrs, gh_rd_attr_is_label, gh_rd_attr_is_unit, gh_rd_attr_grp, gh_rd_redirect_answer; size_t gh_rd_attr_value;\n'
 EXTRA = ('bool gh_group_exists; int gh_removed, gh_opened; ndsize_t gh_removed_name, gh_opened_name; bool gh_opened_create;\n''ndsize_t gh_dim_count; int gh_creates; ndsize_t gh_created_index; double gh_created_interval; const double *gh_created_ticks; size_t gh_created_ticks_n;\n'
          'int gh_offset_sets; double gh_offset_value; int gh_label_sets, gh_unit_sets; int gh_interval_sets; double gh_interval_value; int gh_ticks_sets; int gh_labels_sets; unsigned gh_created_column; int gh_created_with_column;\n'
          'int gh_bt_setdata, gh_bt_setdata_ticks_name, gh_bt_setextent, gh_bt_write, gh_bt_write_after_extent, gh_bt_opened, gh_bt_data; size_t gh_bt_extent_rank; ndsize_t gh_bt_extent_d0; const double *gh_bt_written; size_t gh_bt_written_n;\n')
 def job(fn, **kw):
     d = dict(name=fn, bodies=[fn], enforce=[fn], replace=[], extra_c=EXTRA, expect_kinds=['postcondition'], timeout=300); d.update(kw); return d
 JOBS = [job('DataArray_appendSetDimension'), job('DataArray_appendDataFrameDimension_col'), job('DataArray_appendDataFrameDimension_all'), job('DataArray_appendSampledDimension'), job('DataArray_appendRangeDimension', replace=['std_is_sorted_n']),
-        job('DataArrayHDF5_createDimensionGroup'), job('SampledDimension_samplingInterval_set'), job('RangeDimension_ticks_set', replace=['std_is_sorted_n']), job('RangeDimensionHDF5_ticks_set'), job('RangeDimensionHDF5r_redirectGroup', extra_c=EXTRA + 'int gh_rd_opened, gh_rd_names_asked;\n'),
+        job('DataArrayHDF5_createDimensionGroup'), job('SampledDimension_samplingInterval_set'), job('RangeDimension_ticks_set', replace=['std_is_sorted_n']), job('RangeDimensionHDF5_ticks_set'), job('RangeDimensionHDF5r_redirectGroup', extra_c=EXTRA + RDX), job('RangeDimensionHDF5r_label_set', extra_c=EXTRA + RDX), job('RangeDimensionHDF5r_unit_set', extra_c=EXTRA + RDX),
         job('DataArrayHDF5_deleteDimensions', includes=['c13_dims.h', 'c13_delete.h'], loop_contracts=True, expect_kinds=['postcondition', 'loop_invariant_base', 'loop_invariant_step'], extra_c=EXTRA + 'int gh_dd_exists_j, gh_dd_found_j, gh_dd_removed_j, gh_dd_bad_removes;\n'),
         job('DataArrayHDF5_deleteDimensions', name='DataArrayHDF5_deleteDimensions[bounded]', includes=['c13_dims.h', 'c13_delete.h'], defines=['NIX_NO_LOOP_CONTRACTS', 'C13D_BOUNDED=3'], cbmc_flags=['--unwind', '5', '--unwinding-assertions'],
             expect_kinds=['postcondition', 'unwind'], extra_c=EXTRA + 'int gh_dd_exists_j, gh_dd_found_j, gh_dd_removed_j, gh_dd_bad_removes;\n', bounded='at most 3 descriptors, loop unwound completely (twin without loop contract)')]
